@@ -11,7 +11,7 @@ import ast
 
 from ..cfg import known_falsy
 from ..model import self_attr, unparse, walk_body_shallow, walk_shallow
-from .util import (at, chains_in, value_origins, call_name, call_recv, calls_in, kwarg, names_in, need, node_assign_value, node_writes_attr, norm,
+from .util import (single_defs, expand, at, chains_in, value_origins, call_name, call_recv, calls_in, kwarg, names_in, need, node_assign_value, node_writes_attr, norm,
                    one, registrations, where)
 
 TECHNIQUE = "single-flight typestate via must-hold guard facts, CFG cycle check for suspension, offset def-use, wrapper-offset data dependence"
@@ -318,6 +318,24 @@ def run(ctx):
         bad = [n for n in arm2 if n.stmt is not None and node_writes_attr(n, "_fetch_offset")]
         r.check(not bad, "%s#too-small-arm" % hfr.qname, "too-small arm moves the fetch position (skips the message)",
                 where(hfr, en.stmt), "message larger than the buffer is skipped instead of refetched")
+
+    # the set iterator yields each decoded inner message under the offset that came with it (same loop element)
+    it_ = ctx.func("kafkacodec:KafkaCodec._decode_message_set_iter")
+    yl = []
+    def _iter_src(e):
+        return single_defs(it_).get(e.id, e) if isinstance(e, ast.Name) else e
+    for lp in [x for x in ast.walk(it_.node) if isinstance(x, ast.For) and "_decode_message(" in unparse(_iter_src(x.iter))]:
+        for y in [x for st in lp.body for x in ast.walk(st) if isinstance(x, ast.Yield) and isinstance(x.value, ast.Call)]:
+            yl.append((lp, y))
+    okp = bool(yl)
+    for lp, y in yl:
+        tg = [unparse(e) for e in lp.target.elts] if isinstance(lp.target, ast.Tuple) else []
+        args = [unparse(a) for a in y.value.args]
+        okp = okp and len(tg) == 2 and args[:2] == tg
+    r.check(okp, "%s#yields-element-offset" % it_.qname,
+            "the set iterator does not yield (offset, message) of the same decoded element (the wrapper's offset is attached to its inner messages)",
+            where(it_, yl[0][1] if yl else it_.node), "every inner message of a compressed wrapper is delivered under the wrapper's offset: the consumer "
+            "keeps the first and drops the rest as already seen")
 
     # ---- R7 delivered fields
     r = ctx.rule("R7", "SourcedMessage takes message and offset from the same decoded element", 1, "A")
